@@ -166,11 +166,11 @@ def r3(ctx, eff):
 
 def check(ctx):
     ctx.explanation = (
-        "Effect analysis over the call graph of create_db (creators, iterators, parser): every temp file is named by tempfile; every "
-        "delete=False temp file is paired with an unlink on all normal CFG paths to the return (only `_keep_tempfiles` may bypass) or with "
-        "a registered finalizer; the import closure stores to no module-level object and writes no file outside its footprint. "
-        "Concurrent readers: see C19.R3 (no reader writes). Does not decide identical results under every schedule: separate processes "
-        "share no in-process state, and OS/SQLite locking is outside the source.")
+        "The routines that create temp files are evaluated abstractly with symbolic flags, zero-iteration forks and _keep_tempfiles "
+        "False/True/str: naming, what is opened for writing, and removal (unlink after the last write on every returning path, or a "
+        "finalizer that unlinks its argument, also when construction fails); effect analysis over the call graph of create_db: every "
+        "write-open is one of those writes, no module-level store, no foreign file effect. Concurrent readers: see C19.R3. Does not decide "
+        "identical results under every schedule: separate processes share no in-process state, and OS/SQLite locking is outside the source.")
     eff = Effects(ctx)
     r1_r2(ctx, eff)
     r3(ctx, eff)
